@@ -17,7 +17,7 @@ EInit == /\ idx \in 1..Len(States)
          /\ dirs = {}
          /\ mem = States[idx].mem
          /\ procs = [p \in P |-> IdleProc]
-         /\ ctl = IdleCtl(0)
+         /\ ctl = [mode |-> "idle", k |-> 0, used |-> 0, loc |-> 0]
          /\ nextEx = 0 /\ nextShard = 0 /\ nsess = 0
          /\ wlog = States[idx].wlog
          /\ done = {States[idx].done[i] : i \in 1..Len(States[idx].done)}
